@@ -246,6 +246,8 @@ def main():
                        'points between boxes (CASE 2 of the implementation) are not in the statement']
     rep.bounds = {'levels': '1-3', 'box_extent': '3-6', 'cell': 'symbolic, 1 <= i <= n-2 per axis, not under a finer box'}
     common.run_cases(rep, run_case, cases())
+    from harness import conformance
+    conformance.run_into(rep)
     return rep.finish()
 
 
